@@ -78,11 +78,11 @@ sim::Json generate(const std::string& tier, uint64_t seed, uint64_t index) {
   s.set("orig_ncons", (long)m.cons.size());
   // history of direct transfers through the presolver; the first op is repeated at the end
   sim::Json xf = sim::Json::array();
-  static const char* kinds[] = {"PostSol", "PostBasis", "PostIIS", "PostDbl", "PreSol", "PreBasis", "PreInt", "PreLazy"};
+  static const char* kinds[] = {"PostSol", "PostBasis", "PostIIS", "PostDbl", "PreSol", "PreBasis", "PreInt", "PreLazy", "PreUnit", "PreUnit", "PreUnitDbl"};
   int nx = (int)rng.range(2, 7);
   for (int t = 0; t < nx; ++t) {
     sim::Json op = sim::Json::object();
-    op.set("kind", kinds[rng.below(8)]);
+    op.set("kind", kinds[rng.below(11)]);
     op.set("salt", (long)rng.below(5));
     static const char* lens[] = {"exact", "exact", "exact", "long", "empty"};
     op.set("len", lens[rng.below(5)]);
@@ -399,6 +399,16 @@ void judge(const sim::Json& sc, const RunRecord& rec, sim::RunResult& r) {
           if ((long)x.size() != n) flag("WRONG_PRIMAL_COUNT", "transfer", "direct postsolve returned " + std::to_string(x.size()) + " values for " + std::to_string(n) + " original variables");
         }
       }
+    }
+    // a value given for one original constraint reaches the same delivered items whatever its sign
+    for (auto& c : xr) {
+      size_t pp = c.find(" pos:"), pn = c.find(" | neg:");
+      if (c.find(" PreUnit") == std::string::npos || pp == std::string::npos || pn == std::string::npos) continue;
+      std::string a = c.substr(pp + 5, pn - pp - 5), b = c.substr(pn + 7);
+      r.stats.set("unit_transfers", r.stats["unit_transfers"].as_int(0) + 1);
+      if (a.find('#') != std::string::npos) r.stats.set("unit_transfers_with_image", r.stats["unit_transfers_with_image"].as_int(0) + 1);
+      if (a != b) flag("IMAGE_DEPENDS_ON_SIGN", c.find("PreUnitDbl") != std::string::npos ? "dbl" : "int", "a value given for one original constraint (others 0) reaches different delivered items as +7 and as -7: " + c.substr(0, 300));
+      if (a.find('?') != std::string::npos || b.find('?') != std::string::npos) flag("FOREIGN_VALUE", "unit", "a unit transfer delivered a value that was never given: " + c.substr(0, 300));
     }
     for (auto& c : xr) if (c.find(" EXC ") != std::string::npos) r.stats.set("transfer_exceptions", r.stats["transfer_exceptions"].as_int(0) + 1);
   }
